@@ -458,10 +458,11 @@ class Verifier:
                     if e.cls is exc:
                         decl = exc
                         break
-                if decl is None and not issubclass(e.cls, NameError):
+                if decl is None and not issubclass(e.cls, (NameError, AssertionError)):
                     # (a NameError / UnboundLocalError is a reference to a variable that does not
-                    # exist: never the "input refused" a declared base class such as Exception
-                    # stands for -- it is covered only by an exact declaration)
+                    # exist, an AssertionError a failed internal assertion: never the "input
+                    # refused" a declared base class such as Exception stands for -- they are
+                    # covered only by an exact declaration)
                     for exc in c.raises:
                         if issubclass(e.cls, exc):
                             decl = exc
